@@ -183,7 +183,23 @@ CHECKS["C01"] = dict(
           "level is exploration over a boundary grid against an independent oracle."),
     ref="DESIGN.md section 5 C01, section 9", technique="independent TLA+ layout table + reference codec; boundary-grid differential check of captured frames")
 
+CHECKS["C02"] = dict(
+    engine="frames", category="model_checking",
+    note=("Trusted base: TLC; the decision table of spec/Frames.tla; the concretisation of frame kinds into bytes in "
+          "harness/cmd/frames (seeded). The clause 'for any byte stream whatsoever ... never panics' is sampled through "
+          "structured classes, not decided (memory-safety style claims are outside the family, DESIGN.md section 9)."),
+    text=("Frames.tla states what the receiver does with each kind of frame (consumed bytes, reply class and tag, end of "
+          "connection) and TLC checks on all streams of up to 3/4 frames that well-delimited frames consume exactly their size, "
+          "are answered once (Rlerror if rejected), that later frames are still served and that nothing is read after a fatal "
+          "size field; every enumerated stream is concretised and fed to Server.Handle frame by frame through a counting pipe "
+          "(a receiver that waits for more input shows as a missing reply; a server panic is a finding), and the size check "
+          "Accept(size, msize) is replayed against p9.Client as receiver."),
+    ref="DESIGN.md section 5 C02, section 3.2",
+    technique="TLC enumeration of frame streams (Frames.tla) + byte-level replay into Server.Handle / p9.Client with consumption counting")
+
 ENGINES = [
+    {"name": "frames", "path": "spec/Frames.tla + spec/MC_Frames.tla + harness/cmd/frames", "serves_properties": ["C02"],
+     "kind_free_text": "receiver decision table; all short streams enumerated by TLC and replayed at byte level"},
     {"name": "transp", "path": "spec/Wire.tla + spec/ClientFile.tla + harness/wirecodec + harness/cmd/transp",
      "serves_properties": ["C01", "C03"],
      "kind_free_text": "specification tables checked by TLC; scenario grid replayed end to end with frames captured on the wire"},
